@@ -8,6 +8,7 @@ for every locally written block; the theorems below carry the head-set invariant
 import DefraModel.Proofs.CrdtHeads
 import DefraModel.Proofs.CrdtHeadsHistory
 import DefraModel.Proofs.CrdtHeadsExact
+import DefraModel.Proofs.CrdtHeight
 namespace Defra.Props.C04
 open Defra Defra.Crdt
 
@@ -102,6 +103,34 @@ def diamond : List Block :=
    ⟨3, .comp, "d", 2, [1], [], .comp false⟩, ⟨4, .comp, "d", 3, [2, 3], [], .comp false⟩]
 
 example : foldHeads (diamond.take 3) = [2, 3] ∧ foldHeads diamond = [4] := by decide
+
+/-! ### the height rule (`Crdt/Height.lean`, mirror of `AddDelta` + `heads.List` + the height recorded per head) -/
+
+/-- **a commit's height is one more than the greatest height among its parents — for every history**: from the
+    empty store, after ANY history of local writes and merges of commits that obey the rule, every commit in the
+    store obeys it (1 for a commit without parents), provided an identifier names one height (`H`, content
+    addressing). The local writes are the point: `AddDelta` never looks at a parent block, only at the heights
+    recorded in the head store — which are the parents' true heights at every step (`HeadsTrue`, the invariant;
+    observed on the real head store as `[head-height]`) -/
+theorem height_rule_after_every_history (H : Nat → Nat) (ops : List Height.Op)
+    (hremote : ∀ c, Height.Op.remote c ∈ ops → Height.Good H c)
+    (hH : ∀ c ∈ (Height.run {} ops).commits, H c.id = c.height) :
+    ∀ c ∈ (Height.run {} ops).commits, c.height = Height.maxOf (c.parents.map H) + 1 :=
+  Height.all_good H ops {} (fun h hh => by cases hh) (fun c hc => by cases hc) hremote hH
+
+/-- the heights recorded in the head store are the heights of the commits, in every reachable state -/
+theorem recorded_heights_are_true (ops : List Height.Op) :
+    ∀ h ∈ (Height.run {} ops).heads, ∃ c ∈ (Height.run {} ops).commits, c.id = h.1 ∧ c.height = h.2 :=
+  Height.run_headsTrue ops {} (fun h hh => by cases hh)
+
+/-- under the rule the height strictly increases along every parent link, so the commit graph has no cycle -/
+theorem parents_are_strictly_lower (H : Nat → Nat) (c : Height.Commit) (h : Height.Good H c) :
+    ∀ p ∈ c.parents, H p < c.height := Height.good_parent_lower H c h
+
+/-- two local writes, a concurrent remote commit on top of the first, then a local write merging both branches:
+    heights 1, 2, 2, 3 -/
+example : ((Height.run {} [.local 1, .local 2, .remote ⟨3, 2, [1]⟩, .local 4]).commits.map (fun c => (c.id, c.height, c.parents)))
+    = [(1, 1, []), (2, 2, [1]), (3, 2, [1]), (4, 3, [2, 3])] := by decide
 
 /-! non-vacuity: a fork `1 <- {2, 3}` then the merge commit `4` -/
 example : updateHeads (fun _ => true) [2, 3] ⟨4, .comp, "d", 3, [2, 3], [9], .comp false⟩ = [4] := by decide
